@@ -48,7 +48,7 @@ theorem C05_parse_error_raised (cx : Ctx) (n i : Nat) (a : AMode) (m : RMode) (e
 /-- …and for a foreign exception thrown by the action of rule `k`. -/
 theorem C05_foreign (cx : Ctx) (n i : Nat) (a : AMode) (m : RMode) (env : Env) (st : St) (r : Ret)
     (k : Nat) (s : Bool) (h : run cx n i a m env st = some r) (hx : r.res = .thr (.foreign k s)) :
-    ∃ e ∈ r.raw, (∃ sd b c, e = Ev.apply k sd b c) ∨ (∃ sd c, e = Ev.apply0 k sd c) := C05_origin cx n i a m env st r _ h hx
+    ∃ e ∈ r.raw, (∃ sd b c, e = Ev.apply k sd b c) ∨ (∃ sd c, e = Ev.apply0 k sd c) ∨ (∃ sd b c, e = Ev.ruleApply k sd b c) := C05_origin cx n i a m env st r _ h hx
 
 /-- Byte, line and column of a parse_error are mutually consistent: together they are the
     position a scan of some consumed prefix yields. -/
@@ -113,6 +113,52 @@ theorem C05_catch_nested {rec : Rec} (cx : Ctx) (k c : Nat) (ex : Catch) (a : AM
   refine ⟨r1, h1, ?_, ?_⟩
   · intro e he hc; simp [he, hc]
   · intro e he hc; simp [he, hc]
+
+/-- **`must_if< Errors >::control`.**  For a rule `i` that `Errors` has a message for, invoked through the run's control:
+    the invocation never fails locally; when its body fails locally (or its `bool` action vetoes) the result is the
+    parse_error blaming `i` itself at the position where the attempt stopped — a `raise` for `i` at that position follows
+    the `failure` hook in the trace — and that position is not before the start of the attempt (`C05_origin`,
+    `C05_position_consistent` apply to it like to any other parse_error). -/
+theorem C05_must_if (cx : Ctx) (n i : Nat) (nd : Node) (a : AMode) (m : RMode) (env : Env) (st : St) (r : Ret)
+    (hn : cx.g[i]? = some nd) (hc : nd.ctl = true) (hw : (cx.actOf env i nd).wrap = .none) (hk : env.ctl = 0) (hm : i ∈ cx.msgs)
+    (h : run cx (n + 1) i a m env st = some r) :
+    r.res ≠ .fail ∧
+    ∃ r0 : Ret, body cx (run cx n) n nd.kind a (if useGuard a (cx.actOf env i nd) then .optional else m) env st = some r0 ∧
+      ((r0.res = .fail ∨ (r0.res = .ok ∧ actionOutcome cx i a (cx.actOf env i nd) st.cur r0.st.cur = .vetoes)) →
+        r.res = .thr (.parse i (cx.rep r0.st.cur)) ∧ Ev.raise i (cx.rep r0.st.cur) ∈ r.raw) := by
+  have h' := h
+  simp only [run, nodeCall, hn, hw, nodeCore, hc, Bool.not_true, Bool.false_eq_true, if_false,
+    Option.map_eq_some_iff] at h
+  obtain ⟨r1, ⟨r0, h0, rfl⟩, rfl⟩ := h
+  have key : (r0.res = .fail ∨ (r0.res = .ok ∧ actionOutcome cx i a (cx.actOf env i nd) st.cur r0.st.cur = .vetoes)) →
+      (afterBody cx i a (cx.actOf env i nd) env.sd st.cur r0).res = .thr (.parse i (cx.rep r0.st.cur)) := by
+    intro hcase
+    unfold afterBody failureHook
+    simp only [hm, if_true]
+    rcases hcase with hf | ⟨hok, hv⟩
+    · simp only [hf]
+    · simp only [hok, hv]
+  have hz : cx.withCtl env.ctl = cx := by rw [hk]; exact Ctx.withCtl_zero cx
+  refine ⟨?_, r0, h0, ?_⟩
+  · simp only [bracket_res, guardRestore_res, hz]
+    unfold afterBody failureHook
+    simp only [hm, if_true]
+    cases hr : r0.res with
+    | thr e => simp
+    | fail => simp
+    | ok =>
+      simp only
+      cases actionOutcome cx i a (cx.actOf env i nd) st.cur r0.st.cur <;> simp [hr]
+  · intro hcase
+    have hres := key hcase
+    have hres' : (bracket cx i a m env.ctl st (guardRestore (if useGuard a (cx.actOf env i nd) = true then RMode.required else RMode.optional) st.cur
+        { res := (afterBody (cx.withCtl env.ctl) i a (cx.actOf env i nd) env.sd st.cur r0).res,
+          st := (afterBody (cx.withCtl env.ctl) i a (cx.actOf env i nd) env.sd st.cur r0).st,
+          raw := Ev.start i (cx.rep st.cur) env.ctl :: (afterBody (cx.withCtl env.ctl) i a (cx.actOf env i nd) env.sd st.cur r0).raw,
+          surv := (afterBody (cx.withCtl env.ctl) i a (cx.actOf env i nd) env.sd st.cur r0).surv })).res =
+        .thr (.parse i (cx.rep r0.st.cur)) := by
+      simpa only [bracket_res, guardRestore_res, hz] using hres
+    exact ⟨hres', C05_parse_error_raised cx (n + 1) i a m env st _ i _ h' hres'⟩
 
 /-- Which classes the three families name: `parse_error` ⊂ `std::exception` ⊂ anything. -/
 theorem C05_catch_classes :
